@@ -266,6 +266,9 @@ namespace bloch::runtime {
         bool m_inStaticContext = false;
         bool m_inConstructor = false;
         bool m_inDestructor = false;
+        // True while buildClassTable lays classes out; generic classes instantiated in that
+        // phase get their static initialisers run by execute(), in its fixed order.
+        bool m_buildingClassTable = false;
         std::atomic<bool> m_gcRequested{false};
         std::atomic<bool> m_stopGc{false};
         bool m_gcThreadStarted = false;
